@@ -321,6 +321,12 @@ impl Workspace {
                     if let Some(parent) = path.parent() {
                         let _ = fs::create_dir_all(parent);
                     }
+                    // A later operation of the failed patch may have turned this path into a
+                    // directory (after deleting or moving the file away); everything below it
+                    // was created by the patch and has been reverted already.
+                    if path.is_dir() {
+                        let _ = fs::remove_dir_all(&path);
+                    }
                     let _ = fs::write(path, bytes);
                 }
                 None => {
